@@ -58,6 +58,8 @@ def handle (j : Json) : Except String Json := do
       ("word", decide (Word n)),
       ("alnum", js (alnum n)),
       ("ok", Json.arr (allCfgs.map fun c => Json.bool (decide (OutOK c (processName c n)))).toArray),
+      ("strig", Json.arr ([false, true].map fun sn =>
+          Json.arr (scopes.map fun s => Json.bool (trigScopeSingle sn s n)).toArray).toArray),
       ("trig", Json.arr (allCfgs.map fun c => Json.arr #[
           Json.bool (trigDigitLead c n), Json.bool (trigTrimToKeyword c n),
           Json.bool (trigFallbackNotFixed c n), Json.bool (fallbackFires c n)]).toArray)]
@@ -69,10 +71,13 @@ def handle (j : Json) : Except String Json := do
   | "pair" =>
     let a := (← fieldStr j "a").toList
     let b := (← fieldStr j "b").toList
-    pure <| Json.arr (allCfgs.map fun c => Json.arr #[
+    pure <| Json.mkObj [
+      ("cfgs", Json.arr (allCfgs.map fun c => Json.arr #[
         Json.bool (processName c a == processName c b),
         Json.bool (trigSnakeMerge c a b), Json.bool (trigTrimMerge c a b),
-        Json.bool (trigSuffixMerge c a b), Json.bool (trigFallbackMerge c a b)]).toArray
+        Json.bool (trigSuffixMerge c a b), Json.bool (trigFallbackMerge c a b)]).toArray),
+      ("scopes", Json.arr ([false, true].map fun sn => Json.arr (scopes.map fun s => Json.arr #[
+        Json.bool (pyName sn s a == pyName sn s b), Json.bool (trigScopeMerge sn s a b)]).toArray).toArray)]
   | "scope" =>
     let s ← scopeOf (← fieldStr j "scope")
     let sn ← fieldBool j "snake"
